@@ -30,6 +30,13 @@ def library():
         "is_pos": Fn(["n"], Block([], Bin(">", V("n"), I(0))), ret="bool"),
         "nullfn": Fn([], Block([])),
         "glist_push": Fn(["n"], Block([Expr(MCall(V("glist"), "push", V("n")))], MCall(V("glist"), "len")), ret="int"),
+        # threads without host-visible effects
+        "idle": Fn(["n"], Block([Let("i", I(0)), While(Bin("<", V("i"), V("n")), Block([Expr(Asg(V("i"), I(1), "+="))]))])),
+        "spin": Fn([], Block([Loop(Block([]))])),
+        "spawner_ok": Fn(["n"], Block([Expr(Spawn("idle", I(50))), Expr(Spawn("idle", I(500))), Expr(Spawn("idle", V("n")))],
+                                       Bin("+", V("n"), I(1))), ret="int"),
+        "spawner_boom": Fn(["n"], Block([Expr(Spawn("spin")), Expr(Spawn("spin")), Expr(Spawn("spin")), Expr(Spawn("idle", V("n"))),
+                                         Expr(Call("throw", S("boom")))])),
         "main": Fn([], Block([])),
     }
     globs = [("counter", I(0)), ("glist", List(I(0)))]
@@ -40,7 +47,7 @@ CALLS = [("add", [1, 2]), ("add", [-5, 5]), ("sub3", [10, 3, 2]), ("sub3", [1, 2
          ("ret_from_loop", [20]), ("ret_from_try", [4]), ("ret_from_try", [-4]), ("ret_from_nested", [2]),
          ("ret_from_nested", [9]), ("thrower", [0]), ("thrower", [1]), ("catcher", [0]), ("catcher", [1]), ("div", [7, 2]),
          ("div", [7, 0]), ("deep", [5]), ("mk_list", [3]), ("id_str", ["x y"]), ("is_pos", [1]), ("nullfn", []),
-         ("glist_push", [7])]
+         ("glist_push", [7]), ("spawner_ok", [5]), ("spawner_boom", [3])]
 
 
 def lit(v):
@@ -164,15 +171,7 @@ def run(args):
         if rr.get("trace"):
             traces.append(rr["trace"])
             towners.append(p["feats"]["hist"])
-    todo = list(range(len(traces)))
-    while todo:
-        ok, idx, detail = K.validate([traces[i] for i in todo], rep)
-        if ok:
-            break
-        bad = todo[idx]
-        rep.fail({"family": "history", "kind": "trace-rejected", "invariant": detail["invariant"],
-                  "next_event": (detail["next_line"] or {}).get("e")}, {"history": towners[bad], "detail": detail})
-        todo = todo[idx + 1:]
+    K.validate_all(traces, towners, rep, {"family": "history"})
     for h, p in list(zip(hists, progs))[40:43]:
         rep.sample({"history": p["feats"]["hist"], "expected_output": P.plain_text(cases[p["id"]]["out"]),
                     "expected_status": cases[p["id"]]["status"]})
